@@ -503,11 +503,13 @@ class CodeGen:
             return "LinComb.from_bits(%s.to_bits(%s))" % (self.ex(e["args"][0]), "" if n is None else repr(n))
         if c == "aget":
             ix = e["ix"]
+            # "+ __zero__" (a constant-zero LinComb, no allocation): an array of constants read at a public
+            # index gives a plain int, which must not end up in an integer-typed (secret) plan variable
             if isinstance(ix, list):
                 if e.get("chained"):
-                    return self.var("A", e["arr"]) + "".join("[%s]" % self.ex(i) for i in ix)
-                return "%s[%s]" % (self.var("A", e["arr"]), ", ".join(self.ex(i) for i in ix))
-            return "%s[%s]" % (self.var("A", e["arr"]), self.ex(ix))
+                    return "(" + self.var("A", e["arr"]) + "".join("[%s]" % self.ex(i) for i in ix) + " + __zero__)"
+                return "(%s[%s] + __zero__)" % (self.var("A", e["arr"]), ", ".join(self.ex(i) for i in ix))
+            return "(%s[%s] + __zero__)" % (self.var("A", e["arr"]), self.ex(ix))
         if c == "poseidon":
             return "__poseidon__([%s])[0]" % ", ".join(self.ex(x) for x in e["args"])
         raise ValueError("unknown call " + c)
